@@ -24,6 +24,7 @@ import (
 	"strings"
 
 	"github.com/massnetorg/mass-core/logging"
+	"github.com/syndtr/goleveldb/leveldb"
 	mwdb "massnet.org/mass-wallet/masswallet/db"
 	"massnet.org/mass-wallet/masswallet/db/ldb"
 	"verifharness/internal/rng"
@@ -131,8 +132,11 @@ type runner struct {
 	bs    [nslots]*slot
 	is    [nslots]*islot
 
+	closed bool
+
 	committed *refState
 	pending   *refState
+	rsnap     *refState // what the open read transaction must see: the state committed when it began
 	deleted   map[string]bool
 	tainted   bool
 
@@ -181,6 +185,8 @@ func projErr(err error) string {
 		return "err:write-not-allowed"
 	case mwdb.ErrNotSupported:
 		return "err:not-supported"
+	case leveldb.ErrClosed:
+		return "err:closed"
 	}
 	return "err:other"
 }
@@ -211,9 +217,13 @@ func encPath(names []string) string {
 	return strconv.Itoa(len(names)) + "_" + strings.Join(names, "_")
 }
 
+// committed states are never mutated (a write transaction works on a clone), so a pointer is a snapshot
 func (r *runner) view(w bool) *refState {
 	if w {
 		return r.pending
+	}
+	if r.rsnap != nil {
+		return r.rsnap
 	}
 	return r.committed
 }
@@ -271,7 +281,7 @@ func (r *runner) reset() {
 	r.n++
 	r.dir = filepath.Join(r.base, fmt.Sprintf("db%d", r.n))
 	r.open(true)
-	r.committed, r.pending, r.deleted, r.tainted = newRef(), nil, nil, false
+	r.committed, r.pending, r.rsnap, r.deleted, r.tainted, r.closed = newRef(), nil, nil, nil, false, false
 }
 func (r *runner) teardown() {
 	r.dropTx(true)
@@ -279,9 +289,14 @@ func (r *runner) teardown() {
 	if r.wtx != nil && !r.inUpd {
 		r.wtx.Rollback()
 	}
+	if r.rtx != nil {
+		r.rtx.Rollback()
+	}
 	r.wtx, r.rtx, r.inUpd = nil, nil, false
 	if r.db != nil {
-		r.db.Close()
+		if !r.closed {
+			r.db.Close()
+		}
 		r.db = nil
 	}
 	os.RemoveAll(r.dir)
@@ -306,6 +321,11 @@ func (r *runner) runSeq(id string) {
 }
 
 func (r *runner) doUpdate(op []string) {
+	if r.closed {
+		got := projErr(mwdb.Update(r.db, func(tx mwdb.DBTransaction) error { return nil }))
+		r.emit(op, got, r.verdict(got, "err:closed"))
+		return
+	}
 	r.emit(op, "ok", "-")
 	var endTok []string
 	err := mwdb.Update(r.db, func(tx mwdb.DBTransaction) error {
@@ -381,6 +401,13 @@ func (r *runner) txOf(w bool) (interface {
 	return r.rtx, true
 }
 
+func (r *runner) pendingTops() []string {
+	if r.pending != nil {
+		return r.pending.children("")
+	}
+	return r.committed.children("")
+}
+
 // existence verdict for TopLevelBucket / Bucket / FetchBucket
 func (r *runner) existVerdict(w bool, names []string, got bool) string {
 	if r.tainted {
@@ -451,7 +478,7 @@ func (r *runner) dumpImpl() string {
 			}
 		}
 	}
-	mwdb.View(r.db, func(tx mwdb.ReadTransaction) error {
+	verr := mwdb.View(r.db, func(tx mwdb.ReadTransaction) error {
 		names, err := tx.BucketNames()
 		if err != nil {
 			parts = append(parts, "-!"+projErr(err))
@@ -467,6 +494,9 @@ func (r *runner) dumpImpl() string {
 		}
 		return nil
 	})
+	if verr != nil {
+		parts = append(parts, "-!"+projErr(verr))
+	}
 	return "dump:" + strings.Join(parts, ";")
 }
 func (r *runner) dumpRef() string {
@@ -497,6 +527,12 @@ func (r *runner) exec(op []string) (string, string) {
 				return bad()
 			}
 			tx, err := r.db.BeginTx()
+			if r.closed {
+				if err == nil {
+					tx.Rollback()
+				}
+				return projErr(err), r.verdict(projErr(err), "err:closed")
+			}
 			if err != nil {
 				return projErr(err), "BAD:ok"
 			}
@@ -508,10 +544,16 @@ func (r *runner) exec(op []string) (string, string) {
 			return bad()
 		}
 		tx, err := r.db.BeginReadTx()
+		if r.closed {
+			if err == nil {
+				tx.Rollback()
+			}
+			return projErr(err), r.verdict(projErr(err), "err:closed")
+		}
 		if err != nil {
 			return projErr(err), "BAD:ok"
 		}
-		r.rtx = tx
+		r.rtx, r.rsnap = tx, r.committed
 		return "ok", "-"
 	case "commit", "rollback":
 		if r.wtx == nil || r.inUpd {
@@ -536,22 +578,36 @@ func (r *runner) exec(op []string) (string, string) {
 		}
 		r.dropTx(false)
 		err := r.rtx.Rollback()
-		r.rtx = nil
+		r.rtx, r.rsnap = nil, nil
 		return projErr(err), "-"
 	case "ubegin", "uend":
 		return bad()
-	case "reopen":
-		if r.wtx != nil || r.rtx != nil {
+	case "close":
+		if r.wtx != nil || r.rtx != nil || r.closed {
 			return bad()
 		}
 		if err := r.db.Close(); err != nil {
 			return projErr(err), "BAD:ok"
 		}
-		r.db = nil
+		r.closed = true
+		return "ok", "-"
+	case "reopen":
+		if r.wtx != nil || r.rtx != nil {
+			return bad()
+		}
+		if !r.closed {
+			if err := r.db.Close(); err != nil {
+				return projErr(err), "BAD:ok"
+			}
+		}
+		r.db, r.closed = nil, false
 		r.open(false)
 		return "ok", "-"
 	case "dump":
 		got := r.dumpImpl()
+		if r.closed {
+			return got, r.verdict(got, "dump:-!err:closed")
+		}
 		return got, r.verdict(got, r.dumpRef())
 	case "bp":
 		if len(op) != 2 {
@@ -844,7 +900,7 @@ func (r *runner) exec(op []string) (string, string) {
 		}
 		sl := &islot{w: s.w, it: it}
 		if !s.w && !r.tainted {
-			sl.ref = &refIter{ents: r.committed.entries(pid(s.names), keep), pos: -1}
+			sl.ref = &refIter{ents: r.view(false).entries(pid(s.names), keep), pos: -1}
 		}
 		r.is[dst] = sl
 		return "ok", "-"
@@ -1063,6 +1119,17 @@ func (g *gen) next() []string {
 				g.queue = append(g.queue, []string{"txnames", "w"})
 			}
 		}
+	case "commit", "uend":
+		if g.run.rtx != nil {
+			if tops := g.run.pendingTops(); len(tops) > 0 {
+				g.queue = append(g.queue, []string{"top", "r", g.dst(), h(tops[r.Intn(len(tops))])})
+			}
+			g.queue = append(g.queue, []string{"txnames", "r"})
+			if s := g.slot(func(s *slot) bool { return !s.w }); s >= 0 {
+				g.queue = append(g.queue, []string{"get", strconv.Itoa(s), h(g.key())}, []string{"pfx", strconv.Itoa(s), "-"},
+					[]string{"names", strconv.Itoa(s)}, []string{"iter", "2", strconv.Itoa(s), "0", "-", "-"}, []string{"next", "2"})
+			}
+		}
 	case "iter":
 		for i, n := 0, r.Intn(5); i < n; i++ {
 			g.queue = append(g.queue, []string{"next", op[1]})
@@ -1096,12 +1163,12 @@ func (g *gen) pick() []string {
 			}
 			return []string{"top", "r", g.dst(), h(g.name())}
 		case k < 30:
-			if subs := run.committed.children(pid(run.bs[s].names)); len(subs) > 0 && r.Chance(70) {
+			if subs := run.view(false).children(pid(run.bs[s].names)); len(subs) > 0 && r.Chance(70) {
 				return []string{"bkt", g.dst(), strconv.Itoa(s), h(subs[r.Intn(len(subs))])}
 			}
 			return []string{"bkt", g.dst(), strconv.Itoa(s), h(g.name())}
 		case k < 55:
-			if s2 := g.slot(func(s *slot) bool { return !s.w && len(run.committed.kv[pid(s.names)]) > 0 }); s2 >= 0 {
+			if s2 := g.slot(func(s *slot) bool { return !s.w && len(run.view(false).kv[pid(s.names)]) > 0 }); s2 >= 0 {
 				s = s2
 			}
 			d := strconv.Itoa(r.Intn(3))
@@ -1135,7 +1202,24 @@ func (g *gen) pick() []string {
 		k := r.Intn(1000)
 		anyS := func(*slot) bool { return true }
 		wS := func(s *slot) bool { return s.w }
+		if run.wtx == nil && run.rtx == nil && run.closed {
+			switch {
+			case k < 500:
+				return []string{"reopen"}
+			case k < 650:
+				return []string{"begin", "w"}
+			case k < 800:
+				return []string{"begin", "r"}
+			case k < 900:
+				return []string{"ubegin"}
+			default:
+				return []string{"dump"}
+			}
+		}
 		if run.wtx == nil && run.rtx == nil {
+			if k >= 985 {
+				return []string{"close"}
+			}
 			switch {
 			case k < 300:
 				return []string{"ubegin"}
@@ -1161,8 +1245,8 @@ func (g *gen) pick() []string {
 				return []string{"rend"}
 			}
 		}
-		if run.wtx != nil && run.rtx == nil && k < 15 {
-			return []string{"begin", "r"}
+		if run.wtx != nil && run.rtx == nil && k < 40 {
+			return []string{"begin", "r"} // a read transaction that stays open across the commit of this write transaction
 		}
 		w := run.wtx != nil && (run.rtx == nil || r.Chance(75))
 		ws := map[bool]string{true: "w", false: "r"}[w]
